@@ -18,6 +18,7 @@
 #include <algorithm>
 #include <deque>
 #include <map>
+#include <set>
 
 extern "C" {
 void sim_steps_begin(long budget);
@@ -151,6 +152,7 @@ struct SimState {
   std::vector<Fd> fds;
   std::map<void *, size_t> heap;  // blocks allocated by real code
   std::map<FILE *, OutStream *> ostreams;
+  std::set<FILE *> istreams;  // input streams real code opened with fopen(path, "r")
   // stdio
   FILE *real_out = nullptr, *real_err = nullptr;
   FILE *sim_out = nullptr, *sim_err = nullptr, *sim_in = nullptr;
@@ -442,6 +444,48 @@ static ssize_t ck_err_write(void *, const char *, size_t n) {
   G.st.stderr_bytes += (long)n;
   return (ssize_t)n;
 }
+struct InStream {
+  std::string data;
+  size_t pos = 0;
+  bool is_dir = false;
+};
+static ssize_t ck_file_read(void *cookie, char *buf, size_t n) {
+  HarnessScope hs_;
+  InStream *is = (InStream *)cookie;
+  const EnvAns *a = in_lib() ? answer(K_READ) : nullptr;
+  if (is->is_dir) {
+    errno = EISDIR;
+    return -1;
+  }
+  if (a && a->ans == ANS_FAIL && a->err != EINTR) {
+    note_fired(K_READ);
+    errno = a->err ? a->err : EIO;
+    return -1;
+  }
+  size_t left = is->data.size() > is->pos ? is->data.size() - is->pos : 0;
+  size_t take = std::min(left, n);
+  if (a && a->ans == ANS_SHORT && take > 1) {
+    G.st.short_reads++;
+    take = std::min<size_t>(take, (size_t)std::max(1L, a->arg));
+  }
+  memcpy(buf, is->data.data() + is->pos, take);
+  is->pos += take;
+  return (ssize_t)take;
+}
+static int ck_file_seek(void *cookie, off64_t *off, int whence) {
+  InStream *is = (InStream *)cookie;
+  long long base = whence == SEEK_SET ? 0 : whence == SEEK_CUR ? (long long)is->pos : (long long)is->data.size();
+  long long np = base + *off;
+  if (np < 0) return -1;
+  is->pos = (size_t)np;
+  *off = np;
+  return 0;
+}
+static int ck_file_close(void *cookie) {
+  delete (InStream *)cookie;
+  return 0;
+}
+
 static ssize_t ck_in_read(void *, char *buf, size_t n) {
   HarnessScope hs_;
   if (in_lib()) answer(K_IN);
@@ -595,6 +639,8 @@ void sim_end_run() {
   G.heap.clear();
   for (auto &kv : G.ostreams) __real_fclose(kv.first);
   G.ostreams.clear();
+  for (FILE *f : G.istreams) __real_fclose(f);
+  G.istreams.clear();
   G.fds.clear();
 }
 
@@ -602,6 +648,8 @@ void sim_end_run() {
 void process_reclaim() {
   for (auto &kv : G.ostreams) __real_fclose(kv.first);  // exit() flushes and closes open streams
   G.ostreams.clear();
+  for (FILE *f : G.istreams) __real_fclose(f);
+  G.istreams.clear();
   for (auto &kv : G.heap) __real_free(kv.first);
   G.heap.clear();
   for (Island &is : G.islands)
@@ -1002,6 +1050,28 @@ extern "C" int __wrap_fstat(int fd, struct stat *st) {
   st->st_nlink = 1;
   return 0;
 }
+extern "C" int __real_stat(const char *, struct stat *);
+extern "C" int __wrap_stat(const char *path, struct stat *st) {
+  if (!in_lib()) return __real_stat(path, st);
+  HarnessScope hs_;
+  const EnvAns *a = answer(K_FSTAT);
+  if (a && a->ans == ANS_FAIL) {
+    note_fired(K_FSTAT);
+    errno = a->err ? a->err : EIO;
+    return -1;
+  }
+  for (SimFile &f : G.files)
+    if (f.path == path) {
+      memset(st, 0, sizeof *st);
+      st->st_size = f.kind == 2 ? 4096 : (off_t)f.data.size();
+      st->st_mode = f.kind == 2 ? (S_IFDIR | 0755) : (S_IFREG | (f.kind == 1 ? 0000 : 0644));
+      st->st_blksize = 4096;
+      st->st_nlink = 1;
+      return 0;
+    }
+  errno = ENOENT;
+  return -1;
+}
 extern "C" int __wrap_close(int fd) {
   if (!in_lib()) return __real_close(fd);
   HarnessScope hs_;
@@ -1061,8 +1131,29 @@ extern "C" FILE *__wrap_fopen(const char *path, const char *mode) {
   }
   bool wr = strchr(mode, 'w') != nullptr, ap = strchr(mode, 'a') != nullptr;
   if (!wr && !ap) {
-    errno = EINVAL;  // the library only ever writes through stdio
-    return nullptr;
+    // reading through stdio (a tree may load its input with fopen/fread/getline instead of open/read)
+    SimFile *sf = nullptr;
+    for (SimFile &x : G.files)
+      if (x.path == path) sf = &x;
+    if (!sf) {
+      errno = ENOENT;
+      return nullptr;
+    }
+    if (sf->kind == 1) {
+      errno = EACCES;
+      return nullptr;
+    }
+    InStream *is = new InStream();
+    is->data = sf->data;
+    is->is_dir = sf->kind == 2;
+    cookie_io_functions_t rio = {ck_file_read, nullptr, ck_file_seek, ck_file_close};
+    FILE *rf = fopencookie(is, "r", rio);
+    if (!rf) {
+      delete is;
+      return nullptr;
+    }
+    G.istreams.insert(rf);
+    return rf;
   }
   std::string p(path);
   OutStream *os = new OutStream();
@@ -1137,8 +1228,9 @@ extern "C" size_t __wrap_fwrite(const void *ptr, size_t size, size_t n, FILE *f)
 extern "C" int __wrap_fclose(FILE *f) {
   if (!in_lib()) return __real_fclose(f);
   HarnessScope hs_;
+  if (G.istreams.erase(f) > 0) return __real_fclose(f);  // closing an input stream loses nothing: not a fault point
   const EnvAns *a = answer(K_FCLOSE);
-  bool known = G.ostreams.erase(f) > 0;
+  bool known = G.ostreams.erase(f) > 0 || G.istreams.erase(f) > 0;
   if (!known && f != nullptr && f != stdout && f != stderr && f != stdin) sim_reject("fclose: stream was not opened by fopen");
   int r = __real_fclose(f);
   if (a && a->ans == ANS_FAIL) {
